@@ -1445,7 +1445,14 @@ class Engine:
         return self.havoc_call(f"value {f.sexpr()[:40]}", st)
 
     def call_repo_function(self, key, st, a, kw):
+        if self.contract is not None and key in getattr(self.contract, 'inline', ()):
+            return self.inline(key, st, a, kw)      # the contract under proof treats this private helper as part of the unit
         c = self.registry.get(key)
+        if c is not None and getattr(c, 'params', None) is not None:
+            node, _ = self.T.functions[key]
+            names = [x.arg for x in node.args.posonlyargs + node.args.args] + [x.arg for x in node.args.kwonlyargs]
+            if list(c.params) != names:
+                raise OutOfSubset(f"stale contract of callee {key.split('::')[1]} (parameters changed)")
         if c is not None and not (self.contract is not None and getattr(self.contract, 'inline_self', False) and c is self.contract and self.inline_depth == 0 and False):
             return c.summary(self, st, a, kw)
         if key in INLINE or self.inlinable(key):
